@@ -20,8 +20,10 @@ def work(patch):
         r = subprocess.run(["patch", "-p1", "-s", "-f", "-i", patch], cwd=d, capture_output=True, text=True)
         if r.returncode != 0:
             return name, "CONFLICT", [], []
+        sys.path.insert(0, os.path.join(VERIF, "tools"))
+        from relevance import relevant
         viol, errs = [], []
-        for c in ALL:
+        for c in relevant(patch, ALL):
             o = subprocess.run([os.path.join(VERIF, "check"), c, "--no-evidence", "--root", d], capture_output=True, text=True, cwd=VERIF)
             if o.returncode == 1:
                 msg = [l for l in o.stdout.splitlines() if l.startswith("  demeter/")][:1]
